@@ -1397,6 +1397,7 @@ class SyncObj(object):
             if oldNode not in self.__otherNodes:
                 return False
             self.__otherNodes.discard(oldNode)
+            self.__connectedNodes.discard(oldNode)
             self.__raftNextIndex.pop(oldNode, None)
             self.__raftMatchIndex.pop(oldNode, None)
             self.__transport.dropNode(oldNode)
@@ -1527,6 +1528,7 @@ class SyncObj(object):
         nodesToRemove = self.__otherNodes - newNodes
         nodesToAdd = newNodes - self.__otherNodes
         for node in nodesToRemove:
+            self.__connectedNodes.discard(node)
             self.__raftNextIndex.pop(node, None)
             self.__raftMatchIndex.pop(node, None)
             self.__transport.dropNode(node)
